@@ -34,6 +34,9 @@ func runC10(r *an.Run) {
 	c10Lookup(r)
 	noPackageLevelState(r, "R6-lookup-by-unquoted-path")
 	c10GuardsReachMatcher(r)
+	if m := buildRunModel(r); m != nil {
+		everyParsedFileReachesApply(r, m, "R8-only-the-matcher-evaluates-the-guards")
+	}
 }
 
 func c10GuardOrder(r *an.Run) {
